@@ -1,11 +1,10 @@
 // Bounded Kani stand-ins for what the Verus unit `range` cannot take (iterator adapter chains over
 // chunks/chunks_mut, the iterator structs, Index/IndexMut trait impls).  All on Range<usize>, real code.
 
-/// source range of concrete shape h x w at a symbolic origin (< 3), symbolic contents
+/// source range of concrete shape h x w at the concrete origin (1, 2), symbolic contents
+/// (CBMC does not cope with buffers of symbolic length, so every shape is concrete and only cell values are symbolic)
 fn any_src(h: u32, w: u32) -> Range<usize> {
-    let r0: u32 = kani::any();
-    let c0: u32 = kani::any();
-    kani::assume(r0 < 3 && c0 < 3);
+    let (r0, c0) = (1u32, 2u32);
     let mut src: Range<usize> = Range::new((r0, c0), (r0 + h - 1, c0 + w - 1));
     let mut i = 0;
     while i < (h * w) as usize {
@@ -25,45 +24,54 @@ fn oracle(src: &Range<usize>, i: u32, j: u32) -> Option<usize> {
     }
 }
 
-/// `range(s, e)`: bounds (s, e), h*w cells, equals the source where they overlap, default elsewhere
+/// `range(s, e)`: bounds (s, e), h*w cells, equals the source where they overlap, default elsewhere.
+/// Every window with corners s <= e inside rows 0..=4 x cols 0..=5 is enumerated concretely.
 fn check_window(h: u32, w: u32) {
     let src = any_src(h, w);
-    let s: (u32, u32) = (kani::any(), kani::any());
-    let e: (u32, u32) = (kani::any(), kani::any());
-    kani::assume(s.0 <= e.0 && s.1 <= e.1 && e.0 < 5 && e.1 < 5);
+    let (nr, nc) = (5u32, 6u32);
+    let mut s0 = 0u32;
+    while s0 < nr {
+        let mut e0 = s0;
+        while e0 < nr {
+            let mut s1 = 0u32;
+            while s1 < nc {
+                let mut e1 = s1;
+                while e1 < nc {
+                    check_one_window(&src, (s0, s1), (e0, e1));
+                    e1 += 1;
+                }
+                s1 += 1;
+            }
+            e0 += 1;
+        }
+        s0 += 1;
+    }
+}
+fn check_one_window(src: &Range<usize>, s: (u32, u32), e: (u32, u32)) {
     let out = src.range(s, e);
-    kani::cover!(s.0 > src.end.0);                       // disjoint window
-    kani::cover!(s.0 < src.start.0 && e.0 > src.end.0);  // window strictly contains the source rows
-    kani::cover!(s.0 > src.start.0 && e.1 < src.end.1);  // partial overlap
     assert!(out.start == s && out.end == e);
     let ow = (e.1 - s.1 + 1) as usize;
     let oh = (e.0 - s.0 + 1) as usize;
     assert!(out.inner.len() == oh * ow);
-    let mut i = 0u32;
-    while i < 5 {
-        let mut j = 0u32;
-        while j < 5 {
-            if i >= s.0 && i <= e.0 && j >= s.1 && j <= e.1 {
-                let got = out.inner[(i - s.0) as usize * ow + (j - s.1) as usize];
-                let want = match oracle(&src, i, j) { Some(v) => v, None => 0 };
-                assert!(got == want);
-            }
+    let mut i = s.0;
+    while i <= e.0 {
+        let mut j = s.1;
+        while j <= e.1 {
+            let got = out.inner[(i - s.0) as usize * ow + (j - s.1) as usize];
+            let want = match oracle(src, i, j) { Some(v) => v, None => 0 };
+            assert!(got == want);
             j += 1;
         }
         i += 1;
     }
 }
 #[kani::proof]
-#[kani::unwind(27)]
 fn range_window_1x1() { check_window(1, 1); }
 #[kani::proof]
-#[kani::unwind(27)]
 fn range_window_1x2() { check_window(1, 2); }
 #[kani::proof]
-#[kani::unwind(27)]
 fn range_window_2x1() { check_window(2, 1); }
 #[kani::proof]
-#[kani::unwind(27)]
 fn range_window_2x2() { check_window(2, 2); }
 
 /// rows(): h rows of w cells, row i == inner[i*w .. (i+1)*w]; size_hint exact; next_back yields the last row
@@ -97,13 +105,10 @@ fn check_rows(h: u32, w: u32) {
     assert!(back.len() == hh - 1);
 }
 #[kani::proof]
-#[kani::unwind(5)]
 fn range_rows_3x3() { check_rows(3, 3); }
 #[kani::proof]
-#[kani::unwind(5)]
 fn range_rows_2x3() { check_rows(2, 3); }
 #[kani::proof]
-#[kani::unwind(5)]
 fn range_rows_3x1() { check_rows(3, 1); }
 
 /// cells(): enumerates (i / w, i % w, &inner[i]) in order; used_cells(): exactly the non-default ones among them, in order
@@ -148,15 +153,12 @@ fn check_cells(h: u32, w: u32) {
     }
 }
 #[kani::proof]
-#[kani::unwind(11)]
 fn range_cells_3x3() { check_cells(3, 3); }
 #[kani::proof]
-#[kani::unwind(11)]
 fn range_cells_2x3() { check_cells(2, 3); }
 
 /// the empty range: no rows, no cells, zero size, no corners
 #[kani::proof]
-#[kani::unwind(3)]
 fn range_empty_iters() {
     let e: Range<usize> = Range::empty();
     assert!(e.rows().next().is_none() && e.rows().size_hint() == (0, Some(0)));
@@ -167,7 +169,6 @@ fn range_empty_iters() {
 
 /// IndexMut agrees with Index/get; out-of-rectangle (usize, usize) index panics
 #[kani::proof]
-#[kani::unwind(8)]
 fn range_index_mut_2x3() {
     let mut src = any_src(2, 3);
     let i: usize = kani::any();
@@ -186,7 +187,6 @@ fn range_index_mut_2x3() {
     assert!(src[(i, j)] == w && src.get((i, j)) == Some(&w));
 }
 #[kani::proof]
-#[kani::unwind(8)]
 #[kani::should_panic]
 fn range_index_oob_panics() {
     let src = any_src(2, 3);
@@ -196,17 +196,37 @@ fn range_index_oob_panics() {
     let _ = src[(i, j)];
 }
 
-/// Kb twin of the Verus obligation set_value/C05.set_wf (counterexample finder): after set_value the
-/// buffer holds exactly height x width cells.  Old shape 1x2 / 2x2 at symbolic origin, target within +2.
+/// Kb twin of the Verus obligation set_value/C05.set_wf (counterexample finder): after set_value the buffer holds
+/// exactly height x width cells, the written cell reads back, every other cell keeps its value / is default.
+/// Old shape h x w at origin (1, 2); every target position from the start corner to 2 beyond the end corner.
 fn check_set_value(h: u32, w: u32) {
-    let mut src = any_src(h, w);
-    let p: (u32, u32) = (kani::any(), kani::any());
-    kani::assume(p.0 >= src.start.0 && p.1 >= src.start.1 && p.0 <= src.end.0 + 2 && p.1 <= src.end.1 + 2);
+    let src = any_src(h, w);
     let v: usize = kani::any();
-    src.set_value(p, v);
-    let (hh, ww) = src.get_size();
-    assert!(src.inner.len() == hh * ww);
+    let mut p0 = src.start.0;
+    while p0 <= src.end.0 + 2 {
+        let mut p1 = src.start.1;
+        while p1 <= src.end.1 + 2 {
+            let mut r = src.clone();
+            r.set_value((p0, p1), v);
+            let (hh, ww) = r.get_size();
+            assert!(r.inner.len() == hh * ww);
+            assert!(r.get_value((p0, p1)) == Some(&v));
+            let mut i = r.start.0;
+            while i <= r.end.0 {
+                let mut j = r.start.1;
+                while j <= r.end.1 {
+                    if (i, j) != (p0, p1) {
+                        let want = match oracle(&src, i, j) { Some(x) => x, None => 0 };
+                        assert!(r.get_value((i, j)) == Some(&want));
+                    }
+                    j += 1;
+                }
+                i += 1;
+            }
+            p1 += 1;
+        }
+        p0 += 1;
+    }
 }
 #[kani::proof]
-#[kani::unwind(12)]
 fn range_set_value_rect_1x2() { check_set_value(1, 2); }
